@@ -40,6 +40,7 @@ def run(R):
     common.load_ir(R)
     names = common.names_for(R, 'C06')
     obs = check.verify_functions(R, names)
+    obs += common.avr_pass(R, names)
     obs += common.lemma_obligations(R, 'C06')
     check.discharge(R, obs, timeout=300 if R.tier == 'thorough' else 120)
     spec_selfcheck(R)
